@@ -91,3 +91,12 @@ pub fn convert_stub_log(n: grass_compiler::sass_value::Number, from: &Unit, to: 
     }
     grass_compiler::sass_value::Number(r)
 }
+
+/// `conversion_factor(from, to)` reads the Lazy<HashMap> table directly (and `Lazy` drags thread parking into the
+/// model, which Kani cannot compile); contract stub over the dumped table
+pub fn conversion_factor_stub(from: &Unit, to: &Unit) -> Option<f64> {
+    let (f, t) = (index_of(from), index_of(to));
+    if f == t && f != 255 { return Some(1.0); }
+    if f >= NU || t >= NU { return None; }
+    crate::gen_units::table(t, f)
+}
